@@ -552,6 +552,12 @@ class RobustWriterTables(WriterTables):
         fn0 = self.writer.methods["update_field"]
         attr = self.uf_attr
         fn = Normalizer(self.p).view(fn0)
+        from ..normalize import unroll_row_loops
+        import dataclasses as _dc
+
+        _node, _k = unroll_row_loops(fn.node)  # a dispatch written as a literal row table walked by a for..else
+        if _k:
+            fn = _dc.replace(fn, node=_node)
         defs = single_assignments(fn.node)
         methods = set(self.writer.methods)
 
